@@ -4,7 +4,7 @@ Tie: the C01 and C02 correspondence checks on roots built from explicit index ex
 the zero-based twin program (indices shifted) designates the same elements."""
 import re
 
-from . import core, progcheck, viewprog, c02
+from . import core, progcheck, viewprog, c02, c05
 
 PID = "C19"
 
@@ -65,6 +65,10 @@ ITERS = progcheck.Family(PID, "iters", "iters-run", "h_iters", ["h_iters.cpp"], 
                          record=lambda b, f, m, i: {"rebased_diagonal": False, "iterator": c02.record(b, f, m, i)["iterator"]})
 
 
+ASSIGN = progcheck.Family(PID, "assign", "assign-run", "h_assign", ["h_assign.cpp"], monitor=c05.monitor,
+                          body_prefixes=("dop ", "sop "), record=lambda b, f, m, i: {"rebased_diagonal": False})
+
+
 def run(tier, seed, replay=None):
     res = core.Result(PID, tier, seed, level="proof")
     coq = VIEWS.prepare(res)
@@ -75,9 +79,16 @@ def run(tier, seed, replay=None):
         path = core.write_replay(PID, "", {"property": PID, "found-by": "build:harness-h_iters", "log": log_h[-3000:]})
         res.violation(path, "h_iters does not compile", no_input=True)
         return res.finish()
+    ok_a, log_a = ASSIGN.build()
+    if not ok_a:
+        path = core.write_replay(PID, "", {"property": PID, "found-by": "build:harness-h_assign", "log": log_a[-3000:]})
+        res.violation(path, "h_assign does not compile", no_input=True)
+        return res.finish()
     if replay:
         text = open(replay).read()
-        fam = ITERS if re.search(r"^it ", text, re.M) else VIEWS
+        fam = ITERS if re.search(r"^it ", text, re.M) else (ASSIGN if re.search(r"^droot ", text, re.M) else VIEWS)
+        if fam is ASSIGN:
+            c05.index_prog("".join(l for l in text.splitlines(True) if not l.startswith("#")))
         fam.replay(res, replay)
         return res.finish()
     nv, ni = (3000, 2000) if tier == "quick" else (60000, 40000)
@@ -120,8 +131,22 @@ def run(tier, seed, replay=None):
     obs_ci = ITERS.model_run(prog_ci) if prog_ci else ""
     impl_i, crashes_i = ITERS.impl_run(prog_ci + prog_i)
     n_fail += ITERS.classify(res, prog_ci + prog_i, obs_ci + obs_i, impl_i, crashes_i)
+    # ---- assignment / fill / swap / move through views of re-based roots (source re-indexed to the same bases) ----
+    na = 1500 if tier == "quick" else 30000
+    prog_a, obs_a, dist_a = ASSIGN.generate(seed + 2, na, extra=["--rebased", "--maxops", "4", "--maxrank", "3"], prefix="ra")
+    c05.index_prog(prog_a)
+    _orig = ASSIGN.case_fails
+
+    def _cf(block):
+        c05.index_prog(block)
+        return _orig(block)
+    ASSIGN.case_fails = _cf
+    impl_a, crashes_a = ASSIGN.impl_run(prog_a)
+    c05.index_prog(prog_a)
+    n_fail += ASSIGN.classify(res, prog_a, obs_a, impl_a, crashes_a)
+    ASSIGN.case_fails = _orig
     VIEWS.proof_verdict(res, coq, n_fail)
-    allprog = prog_c + prog_v + prog_i
+    allprog = prog_c + prog_v + prog_i + prog_a
     res.coverage.update({
         "evaluations": len(core.split_cases(allprog)) + len(core.split_cases(twin_prog)),
         "distinct_nontrivial": progcheck.distinct_nontrivial(allprog, min_lines=3),
@@ -131,8 +156,8 @@ def run(tier, seed, replay=None):
                 "the library; diagonal() is generated only where the first two index bases are 0 (known finding otherwise, "
                 "exercised by corpus/C19/kf-*.prog); non-trivial = at least 2 operations or walk steps; distinct by hash",
         "samples": progcheck.samples(prog_v, n=1, min_lines=6) + progcheck.samples(prog_i, n=1, min_lines=6),
-        "generator_distribution": {"views": dist_v, "iters": dist_i},
-        "observation_lines_compared": obs_v.count("\n") + obs_i.count("\n"),
+        "generator_distribution": {"views": dist_v, "iters": dist_i, "assign": dist_a},
+        "observation_lines_compared": obs_v.count("\n") + obs_i.count("\n") + obs_a.count("\n"),
         "twin_lines_compared": twin_impl.count("\n"),
         "corpus_cases": len(core.split_cases(prog_c)),
         "disagreeing_cases": n_fail,
